@@ -1,7 +1,7 @@
 """C01 Formatting preserves the meaning of the document (structural clauses)."""
 
 from ..report import Ctx
-from ..rules import hazard, layout, render
+from ..rules import fence, hazard, layout, render
 
 EXPLANATION = (
     "Structural necessary conditions of C01, decided over every element class the parser can instantiate (read from the "
@@ -40,6 +40,7 @@ def run(ctx: Ctx) -> None:
     ctx.rule("R-ENCODE-cell", "table cell text has the pipe re-escaped")
     ctx.rule("R-ENCODE-verbatim", "only content-preserving operations between a verbatim field and the output")
     ctx.rule("R-BOUND", "emitted fence length >= longest fence-like run + 1, same fence character")
+    ctx.rule("R-FENCE", "a fenced block ends where marko says: the closing test reads the source line, not a de-indented copy")
     ctx.rule("R-STATE", "per-block accumulators of the renderer are reset before a paragraph / heading renders its children")
     ctx.rule("R-HAZARD", "first-word language of each paragraph-interrupting block start is covered by the line-start escaper")
     ctx.rule("R-ESCAPE-SITE", "the escaper is applied to the first word of every continuation line in Markdown mode")
@@ -54,6 +55,7 @@ def run(ctx: Ctx) -> None:
     ctx.run(render.check_prefix)
     ctx.run(render.check_encode)
     ctx.run(render.check_fence_bound)
+    ctx.run(fence.check_fence_parse)
     ctx.run(render.check_block_accumulators)
     ctx.run(hazard.check_hazards)
     ctx.run(hazard.check_escape_site)
